@@ -509,17 +509,76 @@ pub fn run_history(ctx: &Ctx, sz: &Sizes, hist: u64) {
             return;
         },
     };
-    for t in threads {
-        let _ = t.join();
+    // the receive ended (possibly early, with an error): senders that never come back would block
+    // the join for good - decide that logically instead
+    {
+        let run3 = running.clone();
+        match await_cond(20_000, &move || run3.load(Ordering::SeqCst) == 0) {
+            Ok(true) => {
+                for t in threads {
+                    let _ = t.join();
+                }
+            },
+            Ok(false) => {
+                rep.violation("C02:sender-blocks-forever", json!({"ctx": base, "receive_error": rerr, "received": recvs.len()}), replay.clone());
+                for c in children.lock().unwrap().iter_mut() {
+                    let _ = c.kill();
+                    let _ = c.wait();
+                }
+                for e in forked_pids.lock().unwrap().iter() {
+                    if !e.1 {
+                        unsafe {
+                            libc::kill(e.0, libc::SIGKILL);
+                            let mut st = 0;
+                            libc::waitpid(e.0, &mut st, 0);
+                        }
+                    }
+                }
+                return;
+            },
+            Err(e) => {
+                rep.inconclusive(&format!("c02 history {}: senders did not finish: {}", hist, e));
+                for c in children.lock().unwrap().iter_mut() {
+                    let _ = c.kill();
+                    let _ = c.wait();
+                }
+                return;
+            },
+        }
     }
-    for c in children.lock().unwrap().iter_mut() {
-        let _ = c.wait();
-    }
-    for e in forked_pids.lock().unwrap().iter_mut() {
-        if !e.1 {
-            let mut st = 0;
-            unsafe { libc::waitpid(e.0, &mut st, 0) };
-            e.1 = true;
+    {
+        let (ch2, fk2) = (children.clone(), forked_pids.clone());
+        let procs_done = move || {
+            for e in fk2.lock().unwrap().iter_mut() {
+                if !e.1 {
+                    let mut st = 0;
+                    if unsafe { libc::waitpid(e.0, &mut st, libc::WNOHANG) } == e.0 {
+                        e.1 = true;
+                    }
+                }
+            }
+            fk2.lock().unwrap().iter().all(|e| e.1) && ch2.lock().unwrap().iter_mut().all(|c| matches!(c.try_wait(), Ok(Some(_))))
+        };
+        let verdict = await_cond(20_000, &procs_done);
+        if !matches!(verdict, Ok(true)) {
+            match verdict {
+                Ok(false) => rep.violation("C02:sender-process-blocks-forever", json!({"ctx": base, "receive_error": rerr, "received": recvs.len()}), replay.clone()),
+                _ => rep.inconclusive(&format!("c02 history {}: sender processes did not finish", hist)),
+            }
+            for c in children.lock().unwrap().iter_mut() {
+                let _ = c.kill();
+                let _ = c.wait();
+            }
+            for e in forked_pids.lock().unwrap().iter() {
+                if !e.1 {
+                    unsafe {
+                        libc::kill(e.0, libc::SIGKILL);
+                        let mut st = 0;
+                        libc::waitpid(e.0, &mut st, 0);
+                    }
+                }
+            }
+            return;
         }
     }
     let mut sends = logs.lock().unwrap().clone();
@@ -570,7 +629,7 @@ pub fn run(ctx: &Ctx) {
             continue;
         }
         run_history(ctx, &sz, hist);
-        if ctx.rep.nviol.load(Ordering::Relaxed) >= 4 {
+        if ctx.rep.nviol.load(Ordering::Relaxed) >= 1 {
             break; // every further stalled history would cost another grace period
         }
     }
